@@ -1342,9 +1342,189 @@ class C15(Base):
             yield h.done()
 
 
+
+# ====================================================================== C19
+
+class C19(Base):
+    id = "C19"
+    level = "fault_enumeration"
+    technique = "deterministic simulation: errno/short-write faults on the archive path enumerated per cleanup pass; I/O-trace oracle + archive recovery round trip"
+    level_text = ("conservative_mode=true. Seeded histories of STOREs (payload values from the edge-value pool, empty logs, a torn last "
+                  "line left by a crash inside an unbuffered append in the previous lifetime) and flushes; every flush runs a WAL "
+                  "cleanup pass. For each base history one variant per (archive operation kind x occurrence) injects EIO / ENOSPC / "
+                  "EACCES / ENOTDIR / EEXIST or a short write on the archive directory or file of the i-th eligible log. Oracle on "
+                  "the I/O trace: an unlink of wal-N.log is preceded, in the same pass, by a completed archive of log N (created, all "
+                  "writes and the fsync succeeded), and no WAL log is unlinked in a pass in which any archive operation failed. "
+                  "Afterwards the archive recovery API must return exactly the parseable entries of every deleted log (bytes captured "
+                  "by the seam) with type, context, timestamp, payload and event id, in log order.")
+    clauses = {"unlink-without-archive", "unlink-after-failed-archive", "archive-lossy", "panic"}
+    budgets = {"quick": {"histories": 24, "fault_variants": 12}, "thorough": {"histories": 300, "fault_variants": 60}}
+    opts = {"archive": True}
+
+    @staticmethod
+    def nontrivial(plan, res):
+        return res["stats"].get("wal_unlinks", 0) > 0 or res["stats"].get("archive_faults_fired", 0) > 0
+
+    @staticmethod
+    def gen(seed, tier):
+        for i in range(C19.budgets[tier]["histories"]):
+            rng = rnd("C19", seed, i)
+            cfg = {"shard_count": rng.choice([1, 1, 2]), "fill_factor": rng.choice([1, 2]), "event_per_zone": rng.choice([1, 2]),
+                   "segments_per_merge": 2,
+                   "wal": {"flush_each_write": True, "buffered": rng.choice([False, True]), "buffer_size": 64, "conservative_mode": True}}
+            h = H(seed, "C19", cfg, uid_salt=f"C19-{seed}-{i}")
+            h.life(end="kill" if rng.random() < 0.3 else "shutdown")
+            h.define("w", {"k": "int", "s": "string", "o": "int | null"})
+            ctxs = ["c0", "c1", "c2"]
+            pool = ["x", "", "héllo ✓", "17", "null", "line with spaces", "q\"uote" if False else "tab\tin", "L" * 300]
+
+            def st():
+                k = h.new_k()
+                h.store("w", rng.choice(ctxs), {"k": k, "s": rng.choice(pool), "o": rng.choice([None, 1, -5])}, k=k)
+            nlife = rng.choice([1, 2])
+            for li in range(nlife):
+                for _ in range(rng.randrange(4, 14)):
+                    x = rng.random()
+                    if x < 0.2:
+                        h.flush()
+                    else:
+                        st()
+                h.flush()
+                if li < nlife - 1:
+                    if rng.random() < 0.4:
+                        # leave a torn last line: crash inside the next WAL append
+                        st()
+                        h.cur["io_faults"].append({"id": "torn", "op": "write", "path": "wal/shard-*/wal-*.log",
+                                                    "nth": 10_000, "short": rng.choice([1, 10, 40]), "then_crash": True})
+                        h.cur["torn_at_last_store"] = True
+                    h.end(rng.choice(["kill", "shutdown"]))
+                    h.life(end="shutdown")
+            for sh in range(cfg["shard_count"]):
+                h.step({"op": "wal_archive_recover", "shard": sh, "dir_rel": f"wal/archived/shard-{sh}", "meta": {"kind": "archive_recover", "shard": sh}})
+            plan = h.done()
+            plan["enumerate_life"] = len(plan["lifetimes"]) - 1
+            yield plan
+
+    @staticmethod
+    def variants(plan, result, seed, tier):
+        li = plan["enumerate_life"]
+        info = result["io"][li] if li < len(result["io"]) else None
+        if not info or "events" not in info:
+            return
+        rng = rnd("C19v", seed, result["id"])
+        arch = [(k, op, pc) for k, op, pc in info["events"] if pc == "wal-archive"]
+        kinds = sorted({op for _, op, _ in arch})
+        cands = []
+        for op in kinds:
+            n = sum(1 for _, o, _ in arch if o == op)
+            for nth in range(1, n + 1):
+                for err in (["EIO", "ENOSPC"] if op in ("write", "fsync") else ["EACCES", "ENOTDIR", "EEXIST"] if op in ("mkdir",) else ["EACCES", "ENOSPC", "EIO"]):
+                    cands.append((op, nth, err, -1))
+                if op == "write":
+                    cands.append((op, nth, None, rng.choice([1, 7, 30])))
+        rng.shuffle(cands)
+        for op, nth, err, short in cands[: C19.budgets[tier]["fault_variants"]]:
+            p = copy.deepcopy(plan)
+            p.pop("id", None)
+            f = {"id": f"arch-{op}-{nth}-{err or 'short'}", "op": op, "path": "wal/archived*", "nth": nth}
+            if err:
+                f["errno"] = err
+            else:
+                f["short"] = short
+            p["lifetimes"][li]["io_faults"] = list(p["lifetimes"][li].get("io_faults", [])) + [f]
+            p["opts"] = {"faulty": True}
+            yield p
+
+
+
+# ====================================================================== C06
+
+E_SCHEMA = {"k": "int", "i": "int", "u": "u64", "f": "float", "s": "string", "b": "bool", "en": ["red", "green"],
+            "dt": "datetime", "d": "date", "o": "string | null"}
+
+
+def e_valid(k, rng):
+    p = {"k": k, "i": rng.choice([0, -7, 9223372036854775807, -9223372036854775808]), "u": rng.choice([0, 5, 18446744073709551615]),
+         "f": rng.choice([1.5, -0.25, 2, 1e10]), "s": rng.choice(["x", "hello", "ünï"]), "b": rng.choice([True, False]),
+         "en": rng.choice(["red", "green"]), "dt": rng.choice([1735787045, "2025-01-02T03:04:05Z", "2025-01-02T03:04:05+02:00"]),
+         "d": rng.choice(["2025-01-02", 1735776000]), "o": rng.choice([None, "v", "__ABSENT__"])}
+    if p["o"] == "__ABSENT__":
+        del p["o"]
+    return p
+
+
+INVALID_MUTATIONS = [
+    ("missing:i", lambda p: p.pop("i")), ("missing:s", lambda p: p.pop("s")), ("missing:en", lambda p: p.pop("en")),
+    ("extra", lambda p: p.__setitem__("extra", 1)), ("misspelt", lambda p: (p.__setitem__("I", p.pop("i")))),
+    ("int<-string", lambda p: p.__setitem__("i", "5")), ("int<-float", lambda p: p.__setitem__("i", 1.5)),
+    ("int<-bool", lambda p: p.__setitem__("i", True)), ("int<-null", lambda p: p.__setitem__("i", None)),
+    ("int<-object", lambda p: p.__setitem__("i", {"a": 1})), ("int<-array", lambda p: p.__setitem__("i", [1])),
+    ("int<-overflow", lambda p: p.__setitem__("i", 9223372036854775808)),
+    ("u64<-negative", lambda p: p.__setitem__("u", -1)), ("u64<-overflow", lambda p: p.__setitem__("u", 18446744073709551616)),
+    ("u64<-string", lambda p: p.__setitem__("u", "1")),
+    ("float<-string", lambda p: p.__setitem__("f", "1.5")), ("float<-bool", lambda p: p.__setitem__("f", False)),
+    ("string<-int", lambda p: p.__setitem__("s", 5)), ("string<-bool", lambda p: p.__setitem__("s", True)),
+    ("string<-null", lambda p: p.__setitem__("s", None)),
+    ("bool<-string", lambda p: p.__setitem__("b", "true")), ("bool<-int", lambda p: p.__setitem__("b", 1)),
+    ("enum<-wrongcase", lambda p: p.__setitem__("en", "Red")), ("enum<-unknown", lambda p: p.__setitem__("en", "blue")),
+    ("enum<-int", lambda p: p.__setitem__("en", 0)),
+    ("datetime<-garbage", lambda p: p.__setitem__("dt", "not a time")), ("datetime<-bool", lambda p: p.__setitem__("dt", True)),
+    ("date<-garbage", lambda p: p.__setitem__("d", "2025-13-45")),
+    ("optional<-wrongtype", lambda p: p.__setitem__("o", 5)),
+]
+
+
+class C06(Base):
+    id = "C06"
+    technique = "deterministic simulation: accept/reject decisions and 'no trace' checked across flush, compaction, kill and restart; failed DEFINE leaves the schema in force across lifetimes"
+    level_text = ("Claimed with a caveat: the accept/reject function itself is a function of (schema, payload) - the payloads are input "
+                  "generation (missing/extra/misspelt keys, every JSON type in every slot, i64/u64 boundaries, float-for-int, "
+                  "wrong-case enum, unparseable times, empty context, undefined type). What the simulation adds is the temporal half "
+                  "of the statement: a rejected STORE leaves no trace in any later read at any layout checkpoint or lifetime (also not "
+                  "after WAL recovery, flush and compaction), and a DEFINE answered with an error leaves the original schema's "
+                  "acceptance behaviour in force, also after restart.")
+    clauses = {"accepted-invalid", "rejected-valid", "foreign-row", "duplicate-row", "define-error-changed-schema", "panic"}
+    budgets = {"quick": {"histories": 80}, "thorough": {"histories": 3000}}
+
+    @staticmethod
+    def gen(seed, tier):
+        for i in range(C06.budgets[tier]["histories"]):
+            rng = rnd("C06", seed, i)
+            cfg = {"shard_count": rng.choice([1, 2]), "fill_factor": rng.choice([1, 2, 3]), "event_per_zone": rng.choice([1, 2]),
+                   "segments_per_merge": 2, "wal": {"flush_each_write": True, "buffered": False}}
+            h = H(seed, "C06", cfg, uid_salt=f"C06-{seed}-{i}")
+            h.life(end="shutdown")
+            h.define("e", E_SCHEMA)
+            ctxs = ["c0", "c1"]
+
+            def st():
+                k = h.new_k()
+                x = rng.random()
+                p = e_valid(k, rng)
+                if x < 0.45:
+                    h.store("e", rng.choice(ctxs), p, k=k, vclass="valid")
+                elif x < 0.9:
+                    name, mut = rng.choice(INVALID_MUTATIONS)
+                    mut(p)
+                    h.store("e", rng.choice(ctxs), p, k=k, valid=False, vclass="invalid:" + name)
+                elif x < 0.95:
+                    h.store("e", "", p, k=k, valid=False, vclass="invalid:empty-context")
+                else:
+                    h.store("undefined_type", rng.choice(ctxs), p, k=k, valid=False, vclass="invalid:undefined-type")
+                if rng.random() < 0.08:
+                    # a DEFINE that must fail: the type exists already (with a schema that would accept other payloads)
+                    h.cmd('DEFINE e FIELDS {"k":"int"}', {"kind": "define_fail", "type": "e"})
+
+            def cp(tag):
+                h.step({"op": "barrier", "meta": {"kind": "checkpoint", "tag": tag}})
+                h.select("e", tag=tag)
+            layout_script(h, rng, st, rng.randrange(6, 20), cp)
+            yield h.done()
+
+
 # ====================================================================== registry
 
-PROFILES = {"C01": C01, "C02": C02, "C03": C03, "C04": C04, "C05": C05, "C07": C07, "C09": C09, "C10": C10, "C11": C11, "C12": C12, "C13": C13, "C14": C14, "C15": C15, "C18": C18}
+PROFILES = {"C01": C01, "C02": C02, "C03": C03, "C04": C04, "C05": C05, "C06": C06, "C07": C07, "C09": C09, "C10": C10, "C11": C11, "C12": C12, "C13": C13, "C14": C14, "C15": C15, "C18": C18, "C19": C19}
 
 NOT_APPLICABLE = {
     "C08": "pure function of (zone value multiset, probe): no schedule, clock, fault or history in it; its end-to-end consequence is covered by C02's layout-invariance oracle",
@@ -1352,7 +1532,7 @@ NOT_APPLICABLE = {
     "C17": "totality of parsing/dispatch is a pure function of the input string; no interleaving, crash or clock involved",
     "C20": "pure function of (result batch, renderer); no nondeterminism or fault surface",
 }
-for _p in ("C06","C19"):
+for _p in ():
     NOT_APPLICABLE.setdefault(_p, "check under construction in this session (claimed by DESIGN.md; profile not yet registered)")
 
 
